@@ -490,6 +490,17 @@ fn write_indirect(w: &mut W, num: u32, gen: u16, obj: &AObj, length: Option<AObj
     w.token(b"endobj");
 }
 
+fn alloc_number(w: &mut W, next_free: &mut u32, gaps: &mut Vec<u32>) -> u32 {
+    if !gaps.is_empty() && w.tape.chance(70) {
+        w.feat.insert("structural-number-in-gap");
+        let i = w.tape.pick(gaps.len());
+        return gaps.remove(i);
+    }
+    let n = *next_free;
+    *next_free += 1;
+    n
+}
+
 pub fn write(f: &WFile) -> WOutput {
     let mut res = WOutput::default();
     let mut w = W { out: Vec::new(), tape: Tape { t: &f.tape.0, pos: 0 }, feat: BTreeSet::new(), raw_eol: f.raw_eol_in_strings, plain_ws: false, no_sep: false };
@@ -506,8 +517,12 @@ pub fn write(f: &WFile) -> WOutput {
     w.out.extend_from_slice(&f.binary_mark.0);
     let e = w.eol();
     w.out.extend_from_slice(e);
-    // fresh numbers for writer-made objects (containers, xref streams, length holders)
-    let mut next_free = f.revisions.iter().flat_map(|r| r.objects.iter().map(|o| o.0)).max().unwrap_or(0) + 1;
+    // fresh numbers for writer-made objects (containers, xref streams, length holders): above every abstract number
+    // or, sometimes, an unused number in a gap below (a producer may reuse free numbers)
+    let used: BTreeSet<u32> = f.revisions.iter().flat_map(|r| r.objects.iter().map(|o| o.0)).collect();
+    let top = used.iter().max().copied().unwrap_or(0);
+    let mut gaps: Vec<u32> = (1..top.min(2000)).filter(|n| !used.contains(n)).collect();
+    let mut next_free = top + 1;
     let mut prev_xref: Option<usize> = None;
     let mut max_num_so_far = 0u32;
     let use_objstm = f.xref_stream && f.objstm;
@@ -549,8 +564,7 @@ pub fn write(f: &WFile) -> WOutput {
                 let len = c.0.len() as i64;
                 let mode = w.tape.pick(7);
                 if (1..=3).contains(&mode) {
-                    let ln = next_free;
-                    next_free += 1;
+                    let ln = alloc_number(&mut w, &mut next_free, &mut gaps);
                     length = Some(AObj::Ref(ln, 0));
                     length_objs.insert((ln, 0), AObj::Int(len));
                     match mode {
@@ -585,8 +599,7 @@ pub fn write(f: &WFile) -> WOutput {
         // object streams
         for group in packed.iter().filter(|g| !g.is_empty()) {
             w.feat.insert("objstm");
-            let cnum = next_free;
-            next_free += 1;
+            let cnum = alloc_number(&mut w, &mut next_free, &mut gaps);
             structural.insert(cnum);
             let mut body = W { out: Vec::new(), tape: Tape { t: w.tape.t, pos: w.tape.pos }, feat: BTreeSet::new(), raw_eol: f.raw_eol_in_strings, plain_ws: false, no_sep: false };
             let mut offsets = vec![];
@@ -707,8 +720,7 @@ pub fn write(f: &WFile) -> WOutput {
             }
             w.dict(&trailer);
         } else {
-            let xnum = next_free;
-            next_free += 1;
+            let xnum = alloc_number(&mut w, &mut next_free, &mut gaps);
             structural.insert(xnum);
             max_num_so_far = max_num_so_far.max(xnum);
             xref_off = w.out.len();
